@@ -25,6 +25,8 @@ PROPS = {
             "rule": "exhaustive and random resolution-outcome histories fed to addressResolved with real UDP/TCP backends; " + SIDE_NOTE},
     "C15": {"lean": ["C15"], "streams": [{"name": "pins", "gen": "pins"}],
             "rule": "seeded pin/lookup/terminate/wait histories on the real DialogBasedBackend under a virtual clock; " + SIDE_NOTE},
+    "C20": {"lean": ["C20"], "streams": [{"name": "send", "gen": "send"}],
+            "rule": "exhaustive fault patterns: cached connection script x reconnectable path x listener up/down per message, sequences of 1-3 messages, for TCPClientTransport, FailOverClientTransport and TCPBackend; " + SIDE_NOTE},
     "C14": {
         "lean": ["C14"], "expected": ["Tables"],
         "streams": [STD, {"name": "codec", "gen": "codec"}],
